@@ -36,8 +36,11 @@ MODULES = {
         "functions": ["sign", "euclidean", "standardised_euclidean", "manhattan", "chebyshev", "minkowski", "weighted_minkowski",
                       "mahalanobis", "hamming", "canberra", "bray_curtis", "jaccard", "matching", "dice", "kulsinski",
                       "rogers_tanimoto", "russellrao", "sokal_michener", "sokal_sneath", "haversine", "yule", "cosine",
-                      "correlation", "hellinger", "poincare"],
-        "sigs": {},
+                      "correlation", "hellinger", "poincare",
+                      # ll_dirichlet and its scalar helpers (ordinary module functions: translated, callees first), symmetric_kl
+                      "approx_log_Gamma", "log_beta", "log_single_beta", "ll_dirichlet", "symmetric_kl"],
+        "sigs": {"approx_log_Gamma": {"args": {"x": F}}, "log_beta": {"args": {"x": F, "y": F}}, "log_single_beta": {"args": {"x": F}},
+                 "ll_dirichlet": {"args": {"data1": V, "data2": V}}},
         "files": ["L_distances.v", "K_distances.v"],
         "eval": "E_distances.v",
         "deps": ["thm/T_metrics.v", "thm/T_metrics_bin.v", "thm/T_metrics_real2.v", "prop/P_C12.v", "model/M_metrics.v"],
@@ -107,12 +110,16 @@ _SPARSE_OPAQUE = {"arr_union": ([VZ, VZ], VZ), "arr_intersect": ([VZ, VZ], VZ)}
 # `norm` is umap.utils.norm, which sparse.py imports (`imports` below): translated into Src_sparse.v from the current umap/utils.py.
 _SPARSE_FNS = ["norm", "sparse_sum", "sparse_diff", "sparse_mul", "sparse_euclidean", "sparse_manhattan", "sparse_chebyshev", "sparse_minkowski",
                "sparse_hamming", "sparse_canberra", "sparse_bray_curtis", "sparse_jaccard", "sparse_matching", "sparse_dice",
-               "sparse_kulsinski", "sparse_rogers_tanimoto", "sparse_sokal_michener", "sparse_sokal_sneath", "sparse_hellinger", "sparse_cosine", "sparse_correlation"]
+               "sparse_kulsinski", "sparse_rogers_tanimoto", "sparse_russellrao", "sparse_sokal_michener", "sparse_sokal_sneath", "sparse_hellinger", "sparse_cosine", "sparse_correlation"]
+# sparse_ll_dirichlet and its scalar helpers (sparse.py has its own copies of approx_log_Gamma / log_beta / log_single_beta): L_sparse_lld.v
+_SPARSE_LLD = ["approx_log_Gamma", "log_beta", "log_single_beta", "sparse_ll_dirichlet"]
 MODULES["sparse"] = {
-    "path": "umap/sparse.py", "functions": _SPARSE_FNS, "imports": {"norm": ("umap.utils", "umap/utils.py")},
-    "sigs": {f: {"args": _SPARSE_ARGS, "fuel": "ind1.shape[0] + ind2.shape[0]", "opaque": _SPARSE_OPAQUE} for f in _SPARSE_FNS},
-    "files": ["L_sparse.v", "K_sparse.v"], "also": ["distances"],
-    "deps": ["model/M_sparse.v", "thm/T_sparse.v", "thm/T_sparse_metrics.v", "thm/T_sparse_corr.v", "thm/T_sparse_link.v", "prop/P_C13.v"],
+    "path": "umap/sparse.py", "functions": _SPARSE_FNS + _SPARSE_LLD, "imports": {"norm": ("umap.utils", "umap/utils.py")},
+    "sigs": dict({f: {"args": _SPARSE_ARGS, "fuel": "ind1.shape[0] + ind2.shape[0]", "opaque": _SPARSE_OPAQUE} for f in _SPARSE_FNS},
+                 **{"approx_log_Gamma": {"args": {"x": F}}, "log_beta": {"args": {"x": F, "y": F}}, "log_single_beta": {"args": {"x": F}},
+                    "sparse_ll_dirichlet": {"args": _SPARSE_ARGS, "fuel": "ind1.shape[0] + ind2.shape[0]"}}),
+    "files": ["L_sparse.v", "K_sparse.v", "L_sparse_lld.v"], "also": ["distances"],
+    "deps": ["model/M_sparse_lld.v", "thm/T_metrics_real.v", "model/M_sparse.v", "thm/T_sparse.v", "thm/T_sparse_metrics.v", "thm/T_sparse_corr.v", "thm/T_sparse_link.v", "prop/P_C13.v"],
 }
 
 # init_update (umap_.py, C11): an in-place update of the rows n_original_samples.. of a 2-d float array that reads the rows below
